@@ -19,6 +19,11 @@ def strip_annotations(rng, src):
 
 
 HAND = [
+    # fix 7bf4e4f: an unsuffixed range takes the element type of the array type it is used at
+    "pub fn main(x: u8) -> [u8; 3] { let a: [u8; 3] = 2..5; a }",
+    "pub fn main(x: u8) -> [u16; 4] { let a: [u16; 4] = 250..254; a }",
+    "fn f(a: [u8; 2]) -> u8 { a[1usize] }\npub fn main(x: u8) -> u8 { f(3..5) ^ x }",
+    "pub fn main(x: u8) -> ([u8; 2], [u64; 2]) { (0..2, 7..9) }",
     "pub fn main(x: u8) -> u8 { let y = 1 + 2; y + x }",
     "pub fn main(x: u8) -> u8 { let y = 1; let z = y; z + x }",
     "pub fn main(x: u16) -> u16 { let mut s = 0; for i in 0..4 { s = s + 1; } s + x }",
